@@ -3,16 +3,17 @@
 # usage: mut.sh <Cxx> <patch.diff | -e 'sed-expr' file>
 set -u
 export GOFLAGS=-mod=mod GOPROXY=off GOSUMDB=off GOTOOLCHAIN=local; unset GOWORK
-S=/tmp/ctv-mut/repo
-mkdir -p /tmp/ctv-mut/home
+M=${MUT_DIR:-/tmp/ctv-mut}; BIN=${CTVERIF_BIN:-/verif/bin/ctverif}
+S=$M/repo
+mkdir -p $M/home
 rsync -a --delete --exclude .git /repo/ $S/
 prop=$1; shift
 if [ "$1" = "-e" ]; then
   sed -i -E "$2" "$S/$3" || exit 3
-  (cd /tmp/ctv-mut && diff -u /repo/$3 $S/$3 | head -30)
+  (cd $M && diff -u /repo/$3 $S/$3 | head -30)
 else
   (cd $S && patch -p1 -s < "$1") || exit 3
 fi
 (cd $S && go build ./... ) || { echo "MUTANT DOES NOT COMPILE"; exit 4; }
-cp -f /verif/known_findings.json /tmp/ctv-mut/home/ 2>/dev/null
-CTVERIF_REPO=$S CTVERIF_HOME=/tmp/ctv-mut/home /verif/bin/ctverif check $prop 2>&1 | head -${MUT_LINES:-12}
+cp -f /verif/known_findings.json $M/home/ 2>/dev/null
+CTVERIF_REPO=$S CTVERIF_HOME=$M/home $BIN check $prop 2>&1 | head -${MUT_LINES:-12}
